@@ -609,7 +609,10 @@ def trace_inclusion(ctx, exe_s, env):
 
 
 def replay(ctx, path):
-    r = json.load(open(path))
+    import replaylib
+    r = replaylib.load("C08", path)
+    if "op" not in r:
+        return replaylib.obligations("C08", run, r, path)
     variant = r.get("variant", "asan")
     vlib.c_build(variant, targets=["liblzma"])
     okh, log, exe_s, exe_p = build_harness(ctx, variant, False)
